@@ -16,8 +16,8 @@ res["tests_pass_with_change"] = ("FAILED" not in out and "failed" not in out.rep
 res["test_summary"] = [l for l in out.split("\n") if l.startswith("test result")][:12]
 # demo
 run = open(os.path.join(d, "demo", "RUN.txt")).read().strip() if os.path.exists(os.path.join(d, "demo", "RUN.txt")) else ""
-m = re.search(r"(cd [^\n]*cargo [^\n]*)", run)
-cmd = m.group(1) if m else run.split("\n")[-1]
+m = re.search(r"(cd \S+\s*&&\s*cargo(?: [\w\-=./]+)+)", run)
+cmd = m.group(1).strip() if m else run.split("\n")[-1]
 res["demo_cmd"] = cmd
 rc1, out1 = sh(cmd, None); res["demo_fails_with_change"] = rc1 != 0; res["demo_out_with"] = out1[-600:]
 sh("git checkout -q -- . && git clean -fdq", W)
